@@ -5,6 +5,7 @@ import JunoModel.C19.ProofsValidator
 import JunoModel.C19.ProofsSched
 import JunoModel.C19.ProofsProc
 import JunoModel.C19.ProofsLive
+import JunoModel.C19.ProofsTasks
 /-!
 C19 — property theorems (statements only; the proofs are one-line calls into `Proofs*.lean`).
 
@@ -502,6 +503,52 @@ theorem processor_total [DecidableEq H] (f : HashFns H) (rs : RS)
     (procStep Cfg.current PCfg.current f rs sg s p u sender).2 ≠ .panic :=
   procStep_total Cfg.current PCfg.current f rs sg id nodes s hs p hp u sender rfl rfl rfl rfl hl
 
+/-! ## 9b. Task accounting of the processor (`increaseTasks` / `decreaseTask`) -/
+
+/-- `processor_task_counters` — in EVERY reachable state of the processor (initially, after every
+unit — accepted, rejected, refused, of any message key — and after every time-out of a
+subprocessor) the counter `tasks` is the number of live subprocessors and `publisherTasks[P]` the
+number of live subprocessors whose message names publisher `P`; no two live subprocessors share a
+message key. Hence every path that ends a subprocessor (`finalize` after the receive threshold, an
+error or the time-out; `discard` after an invalid first unit) releases exactly what
+`createSubprocessor` took. -/
+theorem processor_task_counters [DecidableEq H] (b : Bounds) (cfg : Cfg) (pc : PCfg) (f : HashFns H)
+    (rs : RS) (sg : SigScheme H) (s : Sched) :
+    TInv (TProc.empty : TProc H) ∧
+    (∀ (tp : TProc H) (u : PUnit H) (sender : Bytes), TInv tp →
+      TInv (tprocStep b cfg pc f rs sg s tp u sender).1) ∧
+    (∀ (tp : TProc H) (key : MsgKey H), TInv tp → TInv (tprocExpire tp key)) ∧
+    (∀ (tp : TProc H), TInv tp → tp.tasks = tp.core.subs.length ∧
+      ∀ P, tp.ptasks P = (tp.core.subs.filter (fun e => decide (e.1.publisher = P))).length) :=
+  ⟨tinv_empty, fun tp u sender h => tprocStep_inv b cfg pc f rs sg s tp u sender h,
+   fun tp key h => tprocExpire_inv tp key h, fun tp h => tinv_counts tp h⟩
+
+/-- `rejected_units_release_their_slots` — "a unit … that does not match is rejected and cannot
+cause … the receiver to fail", for the resource the rejected path holds: in any reachable state, ANY
+sequence of units each of which is rejected by the validator of its message key — however long, of
+however many distinct message keys, whatever publishers they name — leaves `tasks` and every
+`publisherTasks[P]` exactly where they were. (So no number of garbage first units naming `P` can make
+the processor refuse `P`'s honest units with "tasks per publisher exceeded".) -/
+theorem rejected_units_release_their_slots [DecidableEq H] (b : Bounds) (cfg : Cfg)
+    (f : HashFns H) (rs : RS) (sg : SigScheme H) (s : Sched)
+    (ops : List (PUnit H × Bytes)) (tp : TProc H) (hp : ProcInv s tp.core)
+    (hrej : AllRejected b cfg PCfg.current f rs sg s tp ops) :
+    (tprocRunState b cfg PCfg.current f rs sg s tp ops).tasks = tp.tasks ∧
+    (tprocRunState b cfg PCfg.current f rs sg s tp ops).ptasks = tp.ptasks :=
+  rejected_units_keep_counters b cfg PCfg.current f rs sg s ops tp hp hrej
+
+/-- `task_accounting_is_transparent` — whenever no subprocessor has to be created, or a slot is free
+(the publisher's count and the total are not AT their bounds), the accounting changes nothing: the
+outcome and the processor state are those of `procStep`, about which §9 speaks (in particular
+`processor_builds_from_k_honest_units`). -/
+theorem task_accounting_is_transparent [DecidableEq H] (b : Bounds) (cfg : Cfg) (pc : PCfg)
+    (f : HashFns H) (rs : RS) (sg : SigScheme H) (s : Sched) (tp : TProc H) (u : PUnit H) (sender : Bytes)
+    (hfree : wouldCreate pc sg s tp.core u = true →
+      tp.ptasks (keyOf u).publisher ≠ b.maxPerPublisher ∧ tp.tasks ≠ b.maxWorkers) :
+    (tprocStep b cfg pc f rs sg s tp u sender).2 = (procStep cfg pc f rs sg s tp.core u sender).2 ∧
+    (tprocStep b cfg pc f rs sg s tp u sender).1.core = (procStep cfg pc f rs sg s tp.core u sender).1 :=
+  tprocStep_eq_procStep b cfg pc f rs sg s tp u sender hfree
+
 /-! ## 10. Regression witnesses of repaired defects (`*_before_fix_<commit>`)
 
 True statements about flag values the code in /repo no longer has; kept so that the defect stays
@@ -672,6 +719,7 @@ example : unitFromProto true ⟨[], 0, [], [], [], [], [], 0⟩ = .err .noShards
     unitFromProto true ⟨[[1, 2], [3], [4, 5]], 0, [0, 1], [], [], [], [], 0⟩ = .err .rootLen ∧
     unitFromProto false ⟨[], 0, [], [], [], [], [], 0⟩ = .panic := by decide
 example : ProcInv (⟨[], 0, [], 1, 0⟩ : Sched) (Proc.empty : Proc HTerm) := procInv_empty _
+example : TInv (TProc.empty : TProc HTerm) := tinv_empty
 example : WireOk (⟨List.replicate 32 0, [1], List.replicate 32 7, [List.replicate 32 9], [5], 3, [[1, 2]], 8⟩ : PUnit Bytes) :=
   ⟨by simp, by simp, by simp, by simp, by simp, by decide, by decide⟩
 example : Cfg.repaired.rootFromPresent = true ∧ Cfg.repaired.unpadGuard = true ∧
